@@ -13,6 +13,7 @@ try:
     from . import rules_index as X
 except ImportError:  # deepening rules not present
     X = None
+from . import rules_geom as G
 
 TRUSTED = [
     "rustc nightly front end, MIR construction, trait resolution and constant evaluator",
@@ -26,6 +27,8 @@ def x(name, ctx, *a):
     """run a deepening rule if it exists"""
     if X is not None and hasattr(X, name):
         return getattr(X, name)(ctx, *a)
+    if hasattr(G, name):
+        return getattr(G, name)(ctx, *a)
     return None
 
 
@@ -62,6 +65,10 @@ def C01(ctx):
     T.c09_t2(ctx, f)
     x("c02_r3", ctx, f)
     x("c01_r4", ctx, f)
+    G.prepare(ctx, f, {"blank", "format", "masks"})
+    G.c03_r3(ctx, f)
+    G.c04_r3(ctx, f)
+    G.c08_r4(ctx, f)
     return dict(
         level="other",
         explanation="Round-trip equality over all payloads is not decided as a whole. Decided, for all 3 840 configuration cells at "
@@ -99,7 +106,9 @@ def C03(ctx):
     R.c03_r2(ctx, f)
     ct = T.c15_t1(ctx, f)
     E.c15_r1(ctx, f, ct)
+    G.prepare(ctx, f, {"blank", "format"})
     x("c03_r3", ctx, f)
+    G.c04_r3(ctx, f, rid="C03.R4", only_outside=True)
     return dict(
         level="other",
         explanation="Side = 17+4v and its inverse for all 40 versions, alignment rows V02..V40 against Annex E, which versions carry "
@@ -324,7 +333,9 @@ def C15(ctx):
     T.c03_t3(ctx, f)
     E.c15_r1(ctx, f, ct)
     R.c08_r1(ctx, f, rid="C15.R2")
-    x("c03_r3", ctx, f)
+    G.prepare(ctx, f, {"blank", "format"})
+    G.c03_r3(ctx, f, rid="C15.R3")
+    G.c04_r3(ctx, f, rid="C15.R4", only_outside=True)
     witness.rule(ctx, "C15.W1", "callback slot is fn(usize, usize, Module) -> String; ModuleType has the eight documented regions",
                  ["w_c15_callback_type", "w_c15_module_types"])
     return dict(
